@@ -10,6 +10,7 @@ import PyTealV.Cmd.C13
 import PyTealV.Cmd.C12
 import PyTealV.Cmd.C15
 import PyTealV.Cmd.C02Spill
+import PyTealV.Cmd.C16
 namespace PyTealV.Cmd
 
 def extraCommands : List (String × (List String → String)) := [
@@ -33,7 +34,10 @@ def extraCommands : List (String × (List String → String)) := [
   ("c15-line", C15.lineCmd), ("c15-internal", C15.internalCmd), ("c15-keep", C15.keepCmd),
   ("c02-spill", C02Spill.spill),
   ("c02-recpoints", C02Spill.recpoints),
-  ("c02-gsearch", C02Spill.gsearch)
+  ("c02-gsearch", C02Spill.gsearch),
+  ("c16-ops", C16.ops),
+  ("c16-run", C16.runCmd),
+  ("c16-spec", C16.specCmd)
 ]
 
 def dispatch (cmd : String) (args : List String) : Option String :=
